@@ -20,6 +20,8 @@ def show(a, top=True):
         return 'rule:' + a[1]
     if k == 'http':
         return a[1]
+    if k == 'flag':
+        return 'simflag:' + a[1]
     if k == 'not':
         return 'not ' + show(a[1], False)
     return '(' + (' %s ' % k).join(show(x, False) for x in a[1]) + ')'
@@ -35,6 +37,8 @@ def ev(a, roles, lookup):
     k = a[0]
     if k == 'role':
         return a[1].lower() in roles
+    if k == 'flag':
+        return ('flag:' + a[1]) in roles
     if k == 'true':
         return True
     if k == 'false':
@@ -78,14 +82,20 @@ def gen(rng, roles, refnames, depth=2):
     if depth == 0 or r < 0.45:
         q = rng.random()
         if q < 0.68:
-            return ['role', rng.choice(roles)]
+            r0 = rng.choice(roles)
+            if r0.startswith('flag:'):
+                # decided by a custom check class registered through
+                # policy.register (three-argument __call__)
+                return ['flag', r0[5:]]
+            return ['role', r0]
         if q < 0.76:
             return ['true']
         if q < 0.84:
             return ['false']
         if refnames:
             return ['rule', rng.choice(refnames)]
-        return ['role', rng.choice(roles)]
+        return ['role', rng.choice([x for x in roles
+                                    if not x.startswith('flag:')])]
     if r < 0.6:
         return ['not', gen(rng, roles, refnames, depth - 1)]
     return [rng.choice(['and', 'or']),
